@@ -2,3 +2,4 @@ pub mod arena;
 pub mod comp;
 pub mod util;
 pub mod s4;
+pub mod grid;
